@@ -762,7 +762,11 @@ impl CaseSpace for IndexSets {
 // common time of occurrence: all orders of <= 3 events
 // ---------------------------------------------------------------------------------------
 
-struct Cto;
+/// `id`: the property whose clause names the violations carry (C10, and C09 which runs the same
+/// product: what the outstation encodes, the master's parser decodes to the same objects)
+pub struct Cto {
+    pub id: &'static str,
+}
 
 const DIFFS: [i64; 6] = [0, 1, 65535, 65536, -1, -70000];
 
@@ -819,7 +823,7 @@ impl CaseSpace for Cto {
                     match r.headers().map_err(|e| format!("{e:?}")).and_then(|h| decode_measurements(&h)) {
                         Ok(ms) => evs.extend(ms.into_iter().filter(|m| m.is_event)),
                         Err(e) => {
-                            res.violation = Some(Violation::new("C10.W0", "objects-not-decodable", e));
+                            res.violation = Some(Violation::new(&format!("{}.W0", self.id), "objects-not-decodable", e));
                             return res;
                         }
                     }
@@ -830,16 +834,16 @@ impl CaseSpace for Cto {
             }
         }
         if evs.len() != 3 || hv.len() != 3 {
-            res.violation = Some(Violation::new("C10.N3", "cto-events-not-all-reported", format!("{} on the wire, {} at the handler", evs.len(), hv.len())));
+            res.violation = Some(Violation::new(&format!("{}.N3", self.id), "cto-events-not-all-reported", format!("{} on the wire, {} at the handler", evs.len(), hv.len())));
             return res;
         }
         for ((m, h), c) in evs.iter().zip(hv.iter()).zip(cases.iter()) {
             if let Err((k, d)) = check_wire(c, m) {
-                res.violation = Some(Violation::new("C10.T1", format!("{k}:g{}v{}", m.group, m.var), format!("time differences {d1},{d2} sync bits {syncs:03b}: {d}")));
+                res.violation = Some(Violation::new(&format!("{}.T1", self.id), format!("{k}:g{}v{}", m.group, m.var), format!("time differences {d1},{d2} sync bits {syncs:03b}: {d}")));
                 return res;
             }
             if let Err((k, d)) = check_handler(c, m, h) {
-                res.violation = Some(Violation::new("C10.T2", format!("{k}:g{}v{}", m.group, m.var), format!("time differences {d1},{d2} sync bits {syncs:03b}: {d}")));
+                res.violation = Some(Violation::new(&format!("{}.T2", self.id), format!("{k}:g{}v{}", m.group, m.var), format!("time differences {d1},{d2} sync bits {syncs:03b}: {d}")));
                 return res;
             }
         }
@@ -989,8 +993,8 @@ pub fn replay(name: &str, path: &[usize]) -> Option<RunResult> {
     if IndexSets.name() == name {
         return Some(IndexSets.run(path[0], true));
     }
-    if Cto.name() == name {
-        return Some(Cto.run(path[0], true));
+    if (Cto { id: "C10" }).name() == name {
+        return Some((Cto { id: "C10" }).run(path[0], true));
     }
     None
 }
@@ -1000,7 +1004,7 @@ pub fn check(tier: &str) -> i32 {
     c.cases(&build_values(tier));
     c.cases(&IndexSets);
     c.cases(&Racing);
-    c.cases(&Cto);
+    c.cases(&Cto { id: "C10" });
     c.finish(
         "exploration",
         "finite product: 8 point types x every configured static variation and every event variation x boundary values (36 analog values incl. i16/i32/f32 limits +-1, halves, infinities, NaN, subnormals; 7 counter values incl. 0xFFFF/0x10000/u32::MAX; all binary / double-bit states) x flag octets (11 quick, all 256 thorough) x 7 timestamps (none, 0, 1, 2^48-1, synchronized and unsynchronized) x index {0, 65535}; index sets (single, dense, sparse incl. 65535, around 255/256); all orders of 3 events under a common-time-of-occurrence header with time differences {0, 1, 65535, 65536, -1, -70000} and mixed synchronisation. Each case: real Database::update -> real response writers (through the real OutstationTask) -> bytes -> engine decoder and the library's extract_measurements into a recording handler, both compared with what the variation can carry; non-trivial = the point was reported; distinct = distinct case",
